@@ -227,7 +227,7 @@ def run(chk, tier, seed):
     d = vlib.scratch("c18_pki")
     w = pubfile.World(d); R = Realiser(w, rng)
     quick = tier == "quick"
-    sc = tlc_cases(chk, "structure", 4 if quick else 6, 0)
+    sc = tlc_cases(chk, "structure", 4 if quick else 5, 0)
     tc = tlc_cases(chk, "trust", 0, 0)
     lc = tlc_cases(chk, "lookup", 0, 3 if quick else 4)
     n1 = structure(chk, exe, sc, R, w)
